@@ -81,7 +81,7 @@ P = {
 }
 
 GUARDS = {
- "C13": "the places where the configuration document gets its canonical order (input types, component connections, aliases)",
+ "C13": "the places where the configuration document gets its canonical order (input types, component connections, aliases), default-connection resolution, and when a loaded document's recorded hash is challenged",
  "C16": "ItemList.numbers (alternate-vocabulary path, computing the own numbers, the KeyError test) and of the copy constructor (which of the identifiers, numbers and cached ranks copied from the source an override makes stale)",
  "C14": "the copy depth at PipelineBuilder.from_pipeline / build_config and DatasetBuilder.__init__ / build_container",
  "C05": "the path selection of sample_records and sample_users (fall-back calls with their arguments)", "C06": "RankingMetricBase.truncate, Recall's denominator and nDCG's ideal length",
